@@ -354,6 +354,9 @@ pub fn live_library_tids() -> Vec<u32> {
 pub const PARK_SAMPLES: u32 = 150;
 pub const PARK_SPAN: Duration = Duration::from_millis(1500);
 pub const WATCHDOG: Duration = Duration::from_secs(120);
+pub const BUSY_TICKS: u64 = 30;
+pub const WAIT_SAMPLES: u32 = 60;
+pub const WAIT_SPAN: Duration = Duration::from_millis(700);
 
 /// Wait until `pred(log)` holds. The success path is signalled by the wrapped sink's own events through the
 /// condvar; the failure path is decided by logical evidence about the library threads.
@@ -535,6 +538,11 @@ pub fn spawn_call_watchdog(on_blocked: impl Fn(&str, &Json, String) + Send + 'st
             let mut last: Option<(u32, procmon::TaskStatus, Instant)> = None;
             let mut samples = 0u32;
             let mut stable_since = Instant::now();
+            // second criterion: the calling thread is WAITING (state S: sleep, lock, channel) sample after sample while it
+            // is inside a call that never waits for anything. A thread that is merely starved of CPU is runnable (R), one
+            // that pages is D: neither counts. (Catches waits that end on their own: grace periods, polling loops.)
+            let mut sleeping: Option<(Instant, Instant, u32)> = None; // (call instance, first S sample, S samples in a row)
+            let mut busy: Option<(Instant, u64)> = None; // (call instance, CPU ticks when first seen)
             loop {
                 std::thread::sleep(Duration::from_millis(10));
                 let g = IN_CALL.lock().unwrap();
@@ -543,6 +551,8 @@ pub fn spawn_call_watchdog(on_blocked: impl Fn(&str, &Json, String) + Send + 'st
                     _ => {
                         samples = 0;
                         last = None;
+                        sleeping = None;
+                        busy = None;
                         continue;
                     }
                 };
@@ -550,6 +560,41 @@ pub fn spawn_call_watchdog(on_blocked: impl Fn(&str, &Json, String) + Send + 'st
                     Some(s) => s,
                     None => continue,
                 };
+                if st.state == 'S' {
+                    sleeping = match sleeping {
+                        Some((inst, first, n)) if inst == c.since => Some((inst, first, n + 1)),
+                        _ => Some((c.since, Instant::now(), 1)),
+                    };
+                } else {
+                    sleeping = None;
+                }
+                // third criterion: the call burns CPU (spin / yield loop): CPU time of the calling thread since the call was
+                // first seen, not wall time - a starved thread does not accumulate any
+                match (&busy, procmon::task_cpu_ticks(c.tid)) {
+                    (Some((inst, t0)), Some(now)) if *inst == c.since => {
+                        if now.saturating_sub(*t0) >= BUSY_TICKS {
+                            let ev = format!("calling thread {} has consumed {} ms of CPU time inside one `{}` call ({} ms after it was invoked): it spins waiting for something; emit, flush and drop on a queuing sink never wait", c.tid, (now - t0) * 10, c.what, c.since.elapsed().as_millis());
+                            on_blocked(&c.what, &c.context, ev);
+                            return;
+                        }
+                    }
+                    (_, Some(now)) => busy = Some((c.since, now)),
+                    _ => {}
+                }
+                if let Some((_, first, n)) = sleeping {
+                    if n >= WAIT_SAMPLES && first.elapsed() >= WAIT_SPAN {
+                        let ev = format!(
+                            "calling thread {} has been inside `{}` for {} ms and was found waiting (state S) in {} consecutive samples over {} ms; emit, flush and drop on a queuing sink never wait for anything",
+                            c.tid,
+                            c.what,
+                            c.since.elapsed().as_millis(),
+                            n,
+                            first.elapsed().as_millis()
+                        );
+                        on_blocked(&c.what, &c.context, ev);
+                        return;
+                    }
+                }
                 let same = matches!(&last, Some((t, s, since)) if *t == c.tid && *s == st && *since == c.since);
                 if same && st.state == 'S' {
                     samples += 1;
